@@ -66,12 +66,12 @@ Proof.
 Qed.
 
 (* ---------- parseTrailer over lines ---------- *)
-Lemma trailer_loop_lines fuel P rem :
+Lemma trailer_loop_lines dn fuel P rem acc :
   tail_inv rem -> starts_spht (hd [] rem) = false -> length (join rem) < fuel ->
-  exists res, trailer_loop fuel (P ++ join rem) (length P) = Ok res /\
-    forall r', res = PTOk r' -> head_len_aux true CurEmpty (join rem) (length P) = Some r'.
+  exists res, trailer_loop fuel dn (P ++ join rem) (length P) acc = Ok res /\
+    forall r' tf, res = PTOk r' tf -> head_len_aux true CurEmpty (join rem) (length P) = Some r'.
 Proof.
-  revert P rem; induction fuel as [|fuel IH]; intros P rem Hinv Hhd Hf; [lia|].
+  revert P rem acc; induction fuel as [|fuel IH]; intros P rem acc Hinv Hhd Hf; [lia|].
   destruct rem as [|l rem0]; [destruct Hinv as [H _]; congruence|]. cbn [hd] in Hhd.
   assert (Hl : no_lf l) by (destruct Hinv as (_ & _ & Hfa); now inversion Hfa).
   assert (Hrem0 : Forall no_lf rem0) by (destruct Hinv as (_ & _ & Hfa); now inversion Hfa).
@@ -83,47 +83,46 @@ Proof.
     assert (EP : P ++ join (l :: used ++ rem') = (P ++ l ++ [LF] ++ join used) ++ join rem').
     { rewrite join_cons, join_app, <- !app_assoc. reflexivity. }
     assert (Er : r' = length (P ++ l ++ [LF] ++ join used)) by (rewrite !app_length; cbn [length]; lia).
-    assert (Hrec : exists res, trailer_loop fuel (P ++ join (l :: used ++ rem')) r' = Ok res /\
-              forall r2, res = PTOk r2 -> head_len_aux true CurEmpty (join (l :: used ++ rem')) (length P) = Some r2).
-    { rewrite EP, Er.
-      destruct (IH (P ++ l ++ [LF] ++ join used) rem' Hi Hs) as (res & Hres & Hpost).
+    assert (Hrec : forall acc', exists res, trailer_loop fuel dn (P ++ join (l :: used ++ rem')) r' acc' = Ok res /\
+              forall r2 tf, res = PTOk r2 tf -> head_len_aux true CurEmpty (join (l :: used ++ rem')) (length P) = Some r2).
+    { intros acc'. rewrite EP, Er.
+      destruct (IH (P ++ l ++ [LF] ++ join used) rem' acc' Hi Hs) as (res & Hres & Hpost).
       { rewrite join_cons, join_app, !app_length in Hf. cbn [length] in Hf. rewrite app_length in Hf. lia. }
-      exists res. split; [exact Hres|]. intros r2 E2.
+      exists res. split; [exact Hres|]. intros r2 tf E2.
       rewrite head_len_lines_skip by assumption.
       rewrite head_len_lines_used by assumption.
-      rewrite <- (Hpost _ E2). f_equal. rewrite !app_length. cbn [length]. lia. }
-    destruct Hrec as (res & Hres & Hpost).
-    destruct (trimTrailingSpace k) as [|k0 kr]; [eauto|].
+      rewrite <- (Hpost _ _ E2). f_equal. rewrite !app_length. cbn [length]. lia. }
+    destruct (trimTrailingSpace k) as [|k0 kr]; [apply Hrec|].
     destruct (isBadTrailer_total (k0 :: kr)) as [bad ->]. cbn [bind].
-    destruct bad; [eexists; split; [reflexivity|intros ? [=]]|].
-    destruct (negb (validValue v)); [eexists; split; [reflexivity|intros ? [=]]|]. eauto.
-  - eexists. split; [reflexivity|]. intros ? [=].
-  - destruct Hnx as [Hb ->]. eexists. split; [reflexivity|]. intros r2 [= <-].
+    destruct bad; [eexists; split; [reflexivity|intros ? ? [=]]|].
+    destruct (negb (validValue v)); [eexists; split; [reflexivity|intros ? ? [=]]|]. apply Hrec.
+  - eexists. split; [reflexivity|]. intros ? ? [=].
+  - destruct Hnx as [Hb ->]. eexists. split; [reflexivity|]. intros r2 tf [= <- _].
     now apply head_len_lines_stop.
 Qed.
 
-Lemma parse_trailer_head_len w n : parse_trailer w = Ok (PTOk n) -> head_len_aux true CurEmpty w 0 = Some n.
+Lemma parse_trailer_head_len dn w n tf : parse_trailer dn w = Ok (PTOk n tf) -> head_len_aux true CurEmpty w 0 = Some n.
 Proof.
   unfold parse_trailer. destruct (scan_init_spec w 0 (or_introl eq_refl)) as (ir & -> & Hir). cbn [bind].
   destruct ir as [| | | |b]; try discriminate.
-  - intros [= <-]. now apply crlf_prefix_head_len.
+  - intros [= <- _]. now apply crlf_prefix_head_len.
   - destruct Hir as (q & z & c & t & Eb & Ew & Ec & Hc). intros H.
     destruct (block_lines_lf q) as (ls & Els & Hinv). rewrite <- Eb in Els.
     pose proof (hd_ok_first b ls c t Els Ec Hc) as Hhd.
-    destruct (trailer_loop_lines (S (length b)) [] ls Hinv Hhd) as (res & Hres & Hpost).
+    destruct (trailer_loop_lines dn (S (length b)) [] ls [] Hinv Hhd) as (res & Hres & Hpost).
     { rewrite <- Els. lia. }
     cbn [app length] in Hres. rewrite <- Els in Hres. rewrite Hres in H. injection H as ->.
-    specialize (Hpost _ eq_refl). cbn [length] in Hpost. rewrite <- Els in Hpost.
+    specialize (Hpost _ _ eq_refl). cbn [length] in Hpost. rewrite <- Els in Hpost.
     rewrite Ew. now apply head_len_aux_app.
 Qed.
 
 (* C01_trailer_end_is_rfc: where header.ReadTrailer stops, the RFC's trailer-section CRLF ends *)
-Theorem read_trailer_rfc bsize r rest : read_trailer bsize r = TrDone rest ->
+Theorem read_trailer_rfc dn bsize r rest tf : read_trailer dn bsize r = TrDone rest tf ->
   trailer_section (S (length r)) r = Some rest.
 Proof.
   unfold read_trailer. destruct r as [|x r0]; [discriminate|]. set (r := x :: r0).
-  destruct (parse_trailer (firstn bsize r)) as [[n| |]| |] eqn:Ep; try discriminate.
-  - intros [= <-]. apply parse_trailer_head_len in Ep.
+  destruct (parse_trailer dn (firstn bsize r)) as [[n tf'| |]| |] eqn:Ep; try discriminate.
+  - intros [= <- _]. apply parse_trailer_head_len in Ep.
     pose proof (head_len_aux_app _ _ _ _ _ (skipn bsize r) Ep) as H. rewrite firstn_skipn in H.
     rewrite (trailer_section_head_len (length r) r 0 n (S (length r)) (Nat.le_refl _) H (Nat.lt_succ_diag_r _)).
     now rewrite Nat.sub_0_r.
@@ -982,15 +981,15 @@ Proof.
 Qed.
 
 (* a chunked body the code accepted is the RFC's chunked-body: same data, same end *)
-Lemma chunked_body_rfc c hd b body rest : wf_bytes b -> content_length hd = (-1)%Z ->
-  read_req_body c hd b = RbOk body rest -> exists d, body = Some d /\ chunked_body b = BdOk d rest.
+Lemma chunked_body_rfc c hd b body rest tf : wf_bytes b -> content_length hd = (-1)%Z ->
+  read_req_body c hd b = RbOk body rest tf -> exists d, body = Some d /\ chunked_body b = BdOk d rest.
 Proof.
   intros Hw Hcl. unfold read_req_body. rewrite Hcl. cbn [Z.gtb Z.compare andb].
   change ((-1 =? -1)%Z) with true. cbv iota.
   destruct (readBodyChunked (c_maxbody c) [] b) as [d r pk|e d pk| |] eqn:Er; try discriminate; [|destruct e; discriminate].
-  destruct (read_trailer (c_bsize c) r) as [r'|e|] eqn:Et; try discriminate.
-  intros [= <- <-]. exists d. split; [reflexivity|]. unfold chunked_body.
-  rewrite (readBodyChunked_rfc _ _ _ _ _ Hw Er). now rewrite (read_trailer_rfc _ _ _ Et).
+  destruct (read_trailer (c_nonorm c) (c_bsize c) r) as [r' tf'|e|] eqn:Et; try discriminate.
+  intros [= <- <- _]. exists d. split; [reflexivity|]. unfold chunked_body.
+  rewrite (readBodyChunked_rfc _ _ _ _ _ Hw Er). now rewrite (read_trailer_rfc _ _ _ _ _ Et).
 Qed.
 
 (* C01_dispatch_is_rfc_prefix, per dispatched request *)
@@ -1009,7 +1008,7 @@ Proof.
   pose proof (dispatched_window_wf _ _ _ _ Hs Hn) as Hw.
   pose proof Hn as Hn1. rewrite serve_frames_unfold in Hn1.
   destruct (serve_offsets _ _ _ _ _ _ (Nat.le_0_l _) Hn1) as (Hwin & Hbound & Hh & _).
-  destruct (serve_dispatch_full _ _ _ _ _ _ (Nat.le_0_l _) Hn1) as (hd & Hp & Hclose & Hm & Hu & Hb).
+  destruct (serve_dispatch_full _ _ _ _ _ _ (Nat.le_0_l _) Hn1) as (hd & Hp & Hclose & Hm & Hu & tfd & Hb).
   set (X := skipn (dp_off d) s) in *.
   assert (EX : X = dp_win d ++ skipn (c_bsize c) X) by (rewrite Hwin; symmetry; apply firstn_skipn).
   destruct (accepted_head_rfc (hcfg_of c) _ (skipn (c_bsize c) X) _ _ eq_refl Hw Hp)
@@ -1043,11 +1042,11 @@ Proof.
     exfalso. unfold D in Ec, El. clear -Ec El. unfold rfc_decision, cl_decision in *.
     repeat match type of Ec with context [match ?x with _ => _ end] => destruct x; cbn in *; try discriminate end.
   - (* chunked *)
-    destruct (chunked_body_rfc _ _ _ _ _ Hwr2 Hlen Hb) as (bd & Ebd & Hcb). rewrite Hcb.
+    destruct (chunked_body_rfc _ _ _ _ _ _ Hwr2 Hlen Hb) as (bd & Ebd & Hcb). rewrite Hcb.
     eexists _, _, (Some _). split; [reflexivity|]. split; [exact Hni|]. cbn [r_method r_target r_body].
     split; [congruence|]. split; [congruence|]. split; [exact Hlast|]. split; [|split; [discriminate|right; exact Ebd]].
     reflexivity.
-  - destruct (read_req_body_fixed _ _ _ _ _ k Hb Hlen) as (Hr & Hk & Hbody).
+  - destruct (read_req_body_fixed _ _ _ _ _ _ k Hb Hlen) as (Hr & Hk & Hbody).
     replace (N.of_nat (length (skipn (dp_hlen d) X)) <? k)%N with false by lia.
     eexists _, _, (Some _). split; [reflexivity|]. split; [exact Hni|]. cbn [r_method r_target r_body].
     split; [congruence|]. split; [congruence|]. split; [exact Hlast|]. split; [|split; [discriminate|]].
